@@ -1,5 +1,6 @@
 """C13 - every child a model class declares can actually be built, written and read back (finite, exhaustive)."""
 import warnings, copy
+import xml.etree.ElementTree as ET
 from .. import common as C
 from .. import schema_harness as H
 from .. import translate_schema as TS
@@ -24,6 +25,9 @@ MANIFEST = {
 
 def translate():
     TS.generate()
+
+
+FILE_HEAD = '<?xml version="1.0" encoding="UTF-8" standalone="no"?>\r\n<?OFX OFXHEADER="200" VERSION="220" SECURITY="NONE" OLDFILEUID="NONE" NEWFILEUID="NONE"?>\r\n'
 
 
 def child_probe(ctx, cls, attr, t, rng):
@@ -79,6 +83,21 @@ def child_probe(ctx, cls, attr, t, rng):
     back = out[1]
     if wtags or not H.inst_equal(ctx, obj, back):
         return ("%s.%s:not-read-back" % (cn, attr), "%s: child %s is not read back into the same attribute (unknown-tag warnings %s)" % (cn, attr, wtags), {"cls": cn, "attr": attr, "xml": ET_str(tree)})
+    # ... and through the door an application uses: the same tree written as a version-2 FILE and read by OFXTree.parse + convert (an empty
+    # aggregate child, a data-less optional child: nothing on the way in may drop what the class declares and the instance holds)
+    import io
+    from ofxtools.Parser import OFXTree
+    data = (FILE_HEAD + ET.tostring(tree, encoding="unicode", short_empty_elements=False)).encode("utf-8")
+
+    def parse_convert():
+        tr = OFXTree(); tr.parse(io.BytesIO(data)); return tr.convert()
+    out2 = H.outcome(parse_convert)
+    if out2[0] != "ok":
+        return ("%s.%s:own-output-rejected-as-file" % (cn, attr), "%s holding %s: OFXTree.parse + convert rejects the file holding the library's own output (%s)" % (cn, attr, out2[1]),
+                {"cls": cn, "attr": attr, "xml": ET_str(tree), "door": "file"})
+    if not H.inst_equal(ctx, obj, out2[1]):
+        return ("%s.%s:not-read-back-from-file" % (cn, attr), "%s: child %s is not read back into the same attribute when the written tree goes through OFXTree.parse + convert" % (cn, attr),
+                {"cls": cn, "attr": attr, "xml": ET_str(tree), "door": "file"})
     # a character-data child holding only white space is still a value: built, written under its tag and read back (at the model level:
     # the text parser would strip it)
     if type(t) in (T.String, T.NagString):
